@@ -213,4 +213,26 @@ def run(repo: Repo, chk: Check, thorough: bool = False) -> None:
            'a name bound by `from defining_module import Name` expands to `defining_module.Name`; when nothing is documented under it the loop just '
            'breaks - the alias reparent() left in the defining module is only consulted for dotted references (`defining_module.Name` written out), '
            'so a base class / annotation / cross-reference through the imported bare name does not reach the moved object', en.loc)
-    chk.require('R07.3', 6)
+    # find_object: the component compared with the root names is the FIRST component of the outdated name, the rest is expanded from that root
+    sp_ = [c for c in calls_in(fo) if call_name(c) in ('split', 'rsplit', 'partition', 'rpartition') and c.args and isinstance(c.args[0], ast.Constant) and c.args[0].value == '.']
+    if not sp_:
+        raise AnalysisError('R07.3: find_object no longer splits the outdated name at a dot')
+    okr = all(call_name(c) in ('split', 'partition') for c in sp_) and all(call_name(c) != 'split' or (len(c.args) > 1 and norm(c.args[1]) == '1') for c in sp_)
+    chk.ob('R07.3', 'model.System.find_object :: the outdated name is split after its root component', okr,
+           f'{norm(sp_[0])}' if okr else
+           f'`{norm(sp_[0])}` splits at the LAST dot: the part compared with the root names is only a root for two-component names - `pkg._impl.Widget` '
+           '(a defining module inside a package) is never matched and the alias left by the move is not consulted', repo.loc(fo.mod, sp_[0]))
+    # the walk up the object tree consults every scope, the root included: the loop is controlled by the cursor itself, not by its parent
+    wl = [n for n in lk.walk() if isinstance(n, ast.While) and any(call_name(c) == 'resolveName' for st in n.body for c in ast.walk(st) if isinstance(c, ast.Call))]
+    if not wl:
+        raise AnalysisError('R07.3: the walk-up loop of _resolve_identifier_xref was not found')
+    for n in wl:
+        cur_ = next((c.func.value.id for st in n.body for c in ast.walk(st) if isinstance(c, ast.Call) and call_name(c) == 'resolveName' and
+                     isinstance(c.func, ast.Attribute) and isinstance(c.func.value, ast.Name)), None)
+        okw = cur_ is not None and not any(isinstance(x, ast.Attribute) and x.attr == 'parent' for x in ast.walk(n.test)) and \
+            any(isinstance(x, ast.Name) and x.id == cur_ for x in ast.walk(n.test))
+        chk.ob('R07.3', 'linker._resolve_identifier_xref :: the walk up the tree includes the root', okw,
+               f'while {norm(n.test)}' if okw else
+               f'`while {norm(n.test)}` stops before the root object is consulted: a reference by old qualified name written in the docstring of a top-level '
+               'module or package is not found', repo.loc(lk.mod, n))
+    chk.require('R07.3', 8)
